@@ -5,6 +5,13 @@ go 1.23
 require (
 	github.com/asticode/go-astikit v0.30.0
 	github.com/asticode/go-astits v0.0.0
+	github.com/stretchr/testify v1.4.0
+)
+
+require (
+	github.com/davecgh/go-spew v1.1.0 // indirect
+	github.com/pmezard/go-difflib v1.0.0 // indirect
+	gopkg.in/yaml.v2 v2.2.2 // indirect
 )
 
 replace github.com/asticode/go-astits => /repo
